@@ -7,7 +7,8 @@ Case = {"cfg": "graph"|"sgraph"|"cg"|"nest", "two": bool, "init": [[s,p,o,c]…]
                 | ["triples",w,s,p,o,c] | ["len",w,c] | ["ctxs",w] | ["tctx",w,s,p,o] | ["ns",w]   (round g: reads through the wrapper)]}
 route (round g): absent = through Graph / ConjunctiveGraph objects as before; "store" = the wrapper's own add()/remove();
 "ident" = ConjunctiveGraph quad whose graph is given as an identifier, not a Graph object; "ctxobj" = through the Graph object that
-ConjunctiveGraph.contexts() (= AuditableStore.contexts()) hands out for that name, when there is one.
+ConjunctiveGraph.contexts() (= AuditableStore.contexts()) hands out for that name, when there is one; "self" = a quad of the
+default graph given as `(s, p, o, cg)` with cg the ConjunctiveGraph itself (the wrapper then receives a ConjunctiveGraph as context).
 cfg "nest" (round g): ConjunctiveGraph over AuditableStore(AuditableStore(Memory)); wrapper 0 = outer (all operations),
 wrapper 1 = inner (commit / rollback behind the outer wrapper's back).
 Terms are small integers (vocabulary below, falsy literals included); graph names 90…93 (93 = the name rdflib gives a graph requested as <>).
@@ -81,7 +82,7 @@ def gen_case(rng, tier, i):
     def route():
         if cfg == "sgraph":
             return []
-        r_ = rng.choice([None, None, "store", "ident", "ctxobj"] if cfg in ("cg", "nest") else [None, None, "store"])
+        r_ = rng.choice([None, None, "store", "ident", "ctxobj", "self"] if cfg in ("cg", "nest") else [None, None, "store"])
         return [r_] if r_ else []
 
     def known(kinds):
@@ -173,7 +174,11 @@ def gen_case(rng, tier, i):
         elif r < 0.38:
             pool = [q for q in init if q[0] in ss]
             q = rng.choice(pool) if pool and rng.random() < 0.5 else quad(ss)
-            ops.append(["add", w] + list(q) + route())
+            rt = route()
+            q = list(q)
+            if rt == ["self"]:
+                q[3] = DEFAULT_G
+            ops.append(["add", w] + q + rt)
         elif r < 0.8:
             pool = [q for q in init if q[0] in ss] + [q for q in known(("add",)) if q[0] in ss]
             q = list(rng.choice(pool)) if pool and rng.random() < 0.7 else quad(ss)
@@ -186,7 +191,10 @@ def gen_case(rng, tier, i):
                 q[0] = None
             if cfg in ("cg", "nest") and rng.random() < 0.3:
                 q[3] = None
-            ops.append(["remove", w] + q + route())
+            rt = route()
+            if rt == ["self"]:
+                q[3] = DEFAULT_G
+            ops.append(["remove", w] + q + rt)
         elif r < 0.9:
             ops.append(["rollback", (1 if rng.random() < 0.3 else 0) if nest else w])
         else:
@@ -285,7 +293,9 @@ def run_impl(case):
     def handed_out(top, c):
         """the Graph object contexts() hands out for the name (written through inside the transaction)"""
         for g_ in top.contexts():
-            if g_.identifier == gn[c]:
+            # (Memory hands back the context object it was given: after `cg.add((s, p, o, cg))` that is a
+            # ConjunctiveGraph, whose remove(triple) means "from every graph" - not a write to ONE graph)
+            if g_.identifier == gn[c] and not isinstance(g_, ConjunctiveGraph):
                 return g_
         return top.get_context(gn[c])
 
@@ -376,6 +386,8 @@ def run_impl(case):
                 top.add((t(s), t(p), t(o), gn[c]))
             elif route == "ctxobj":
                 handed_out(top, c).add((t(s), t(p), t(o)))
+            elif route == "self" and c == DEFAULT_G:
+                top.add((t(s), t(p), t(o), top))
             elif k % 2 == 0:
                 top.add((t(s), t(p), t(o), top.get_context(gn[c])))
             else:
@@ -434,6 +446,8 @@ def run_impl(case):
                 top.remove((t(s), t(p), t(o), gn[c]))
             elif route == "ctxobj":
                 handed_out(top, c).remove((t(s), t(p), t(o)))
+            elif route == "self" and c == DEFAULT_G:
+                top.remove((t(s), t(p), t(o), top))
             elif k % 2 == 0:
                 top.remove((t(s), t(p), t(o), top.get_context(gn[c])))
             else:
@@ -608,4 +622,10 @@ def _m_foreign(case, result):
     return any(o[0] == "addf" for o in case["ops"]) and any(v.startswith("rollback") for v in result["viol"])
 
 
-MATCHERS = {"remove_readd_rollback": _m_readd, "foreign_graph_object": _m_foreign}
+def _m_cg_as_graph(case, result):
+    """a wildcard remove whose graph is the ConjunctiveGraph itself, then rollback"""
+    return (any(o[0] == "remove" and len(o) > 6 and o[6] == "self" and None in o[2:5] for o in case["ops"])
+            and any(v.startswith("rollback") for v in result["viol"]))
+
+
+MATCHERS = {"conjunctive_graph_as_context": _m_cg_as_graph, "remove_readd_rollback": _m_readd, "foreign_graph_object": _m_foreign}
